@@ -735,6 +735,22 @@ class Builtins:
                 self.ctx.sheap = cur
             return [z3.If(k < idx, x, y) for x, y in zip(a, b)]
         self.ctx.set_list(lst, n - 1, ("fn", shifted))
+        if getattr(self.ctx, "append_carry", False):
+            # carry-over facts triggered by reads of the OLD list: a witness position known for the old list (the Skolem constant of an
+            # existential invariant such as "x is still in the working copy") becomes a term of the new list; both follow from the definition above
+            self.ctx.counter += 1
+            kc = z3.Int(f"k!pc{self.ctx.counter}")
+            cur = self.ctx.sheap
+            self.ctx.sheap = snap
+            try:
+                olds = self.ctx.item_terms(lst, kc)
+            finally:
+                self.ctx.sheap = cur
+            for o, lo, hi in zip(olds, self.ctx.item_terms(lst, kc), self.ctx.item_terms(lst, kc - 1)):
+                if z3.is_app(o) and o.decl().kind() == z3.Z3_OP_SELECT:
+                    carry = z3.ForAll([kc], z3.And(z3.Implies(kc < idx, lo == o), z3.Implies(kc > idx, hi == o)), patterns=[o])
+                    self.ctx.pc.append(carry)
+                    self.ctx.keep_ids.add(carry.get_id())
         self.ctx.written.append(("list", lst.z, node))
         return item
 
